@@ -25,6 +25,7 @@ import (
 	"encoding/gob"
 	"encoding/json"
 	"fmt"
+	"github.com/hedzr/is"
 	"io"
 	"os"
 	"os/exec"
@@ -247,6 +248,21 @@ func c06DebugEnv(r *Run, id string, recs []EncRec) {
 	}
 	for i, rec := range recs {
 		prod := rec.emit()
+		// ... and in THIS process after its process-wide debug mode was switched on (any logger's SetLevel(Debug) does
+		// that): the dump belongs to go test runs and debuggers, decided when the process starts
+		is.SetDebugMode(true)
+		live := rec.emit()
+		is.SetDebugMode(false)
+		if len(live) != len(prod) || (len(live) > 0 && !bytes.Equal(live[0], prod[0])) {
+			c := c06TCase{Rec: rec, Why: "the record differs once the process-wide debug mode has been switched on in a production process"}
+			if len(prod) > 0 {
+				c.Production = strconv.Quote(string(prod[0]))
+			}
+			if len(live) > 0 {
+				c.Testing = strconv.Quote(string(live[0]))
+			}
+			r.Fail(id+"/debug-mode-live/record-differs", c.Why, c)
+		}
 		r.Count(true, fmt.Sprintf("debug-env %+v", rec))
 		r.Dist["debug-env:"+rec.Cfg.Mode]++
 		var got [][]byte
